@@ -513,7 +513,7 @@ class EBB3:
         Return a signed integer, on apparent success; Return None on error.
         """
         if (self.port is None) or (self.err is not None):
-            return False
+            return None
 
         bytes_sequence = []
 
